@@ -1022,9 +1022,15 @@ def gen_adi(rng, tier):
                 else:
                     kv = [k0 * rng.choice([1.0, 10.0, 0.01]) for _ in range(n)]
                 kpart = "a " + gen.hexes(kv)
-            dt = rng.choice([0.0, 1e-3, 1.0, 100.0, 1e6])
-            z = gen.elevation(rng, g, rng.choice(["random", "ints", "ints2", "steps", "plane", "cones", "negative", "zero"]))
-            lines.append("adi %s %s %s %d" % (kpart, hx(dt), gen.hexes(z), rng.choice([1, 1, 2])))
+            # later steps of a scenario mostly go on with the same eroder object (set_k_coef), often
+            # with the same time step and the same surface, so that anything the object keeps between
+            # steps (factor tables, scaled copies, buffers) is exercised against the stateless model
+            same = rep > 0 and rng.random() < 0.6
+            dt = dt_prev if same else rng.choice([0.0, 1e-3, 1.0, 100.0, 1e6])
+            if not (same and rng.random() < 0.5):
+                z = gen.elevation(rng, g, rng.choice(["random", "ints", "ints2", "steps", "plane", "cones", "negative", "zero"]))
+            dt_prev = dt
+            lines.append("adi %s %s %s %d%s" % (kpart, hx(dt), gen.hexes(z), rng.choice([1, 1, 2]), " keep" if (rep > 0 and rng.random() < 0.75) else ""))
         out.append(("d%d" % k, lines))
     return out
 
